@@ -153,7 +153,7 @@ class G:
 
 
 def _expr(g, names, depth, signed=False):
-    """non-negative (unless signed) arithmetic expression over names; denominators are bounded away from 0"""
+    """non-negative (unless signed) arithmetic expression over names; denominators are bounded away from 0 except in the capped "rawdiv" form"""
     d = g.draw
 
     def leaf():
@@ -168,7 +168,7 @@ def _expr(g, names, depth, signed=False):
 
     if depth <= 0:
         return leaf()
-    ops = ["leaf", "add", "mul", "div", "max", "min", "expneg", "sqrt", "frac", "cmp", "pow"]
+    ops = ["leaf", "add", "mul", "div", "max", "min", "expneg", "sqrt", "frac", "cmp", "pow", "rawdiv"]
     if not g.p["smooth_functions"]:
         ops += ["floor"]
     if signed:
@@ -186,6 +186,10 @@ def _expr(g, names, depth, signed=False):
         return "(%s / (%s + %s))" % (a, b, repr(g.pick([1.0, 0.1, 100.0])))
     if k == "frac":
         return "(%s / (%s + %s + 1))" % (a, a, b)
+    if k == "rawdiv":
+        # the denominator may be exactly 0: documented division gives 0 for 0/0 and inf for x/0 (capped here so the value stays usable)
+        g.labels.add("fn:division-by-possibly-zero")
+        return "min((%s / %s), %s)" % (a, b, repr(g.pick([1.0, 5.0, 1e3])))
     if k == "max":
         return "max(%s, %s)" % (a, b)
     if k == "min":
